@@ -1240,6 +1240,7 @@ void SPxSolverBase<R>::setType(Type tp)
          sparsePricingFactor = base.sparsePricingFactor;
          fullPerturbation = base.fullPerturbation;
          printBasisMetric = base.printBasisMetric;
+         storeBasisSimplexFreq = base.storeBasisSimplexFreq;
          unitVecs = base.unitVecs;
          primRhs = base.primRhs;
          primVec = base.primVec;
